@@ -2,7 +2,7 @@
 //! longer than the timeout} for timeouts absent / never / already expired / 150 ms, through the
 //! real NetworkAuthority on the emulated bus.
 use crate::{util::*, Opts};
-pub use crate::authrig::exec;
+pub fn exec(c: &[i64]) -> Vec<i64> { if c[0] == 2000 { crate::authrig::exec(&c[1..]) } else { crate::authrig::exec(c) } }
 
 pub const NAME: [i64; 7] = [0, 2, 1, 255, 5, 5, 3];
 
@@ -94,6 +94,34 @@ pub fn gen(o: &Opts, sink: &mut dyn FnMut(Vec<i64>, String)) {
             }
             c.push(2);
         }
+        sink(c, String::new());
+    }
+    // cycles during which the interface refuses every write (event 10): the statuses of ALL units are still
+    // derived and published in that cycle - several units, the transmitting ones first; with and without timeouts
+    let nf = if o.tier_thorough { 1_500 } else { 150 };
+    for j in 0..nf {
+        k += 1; if !mine(o, k) { continue; }
+        let mut rng = Rng::new(o.seed, 9_400_000 + j);
+        let timed = j % 10 == 3;
+        let tk = if timed { 3 } else { *rng.pick(&[0i64, 1, 2]) };
+        let drivers: Vec<(i64, i64, Option<i64>, i64)> = match j % 3 {
+            0 => vec![(1, 0x4a, None, tk), (4, 0x6a, None, tk), (5, 0x7a, None, tk)],
+            1 => vec![(7, 0x00, Some(0x11), tk), (2, 0x12, None, tk), (1, 0x4a, None, tk)],
+            _ => vec![(2, 0x12, None, 0), (4, 0x6b, None, tk)],
+        };
+        let mut c = vec![2000]; c.extend(config(&drivers));
+        let len = if timed { 4 + rng.below(4) } else { 6 + rng.below(30) };
+        let mut waits = 0;
+        for _ in 0..len {
+            match rng.below(8) {
+                0 | 1 => c.push(2),
+                2 | 3 => c.push(10),
+                4 | 5 => { let d = *rng.pick(&drivers); c.extend(frame_from(d.0, d.1, &mut rng)); if rng.chance(1, 2) { c.push(10); } }
+                6 => if timed && waits < 2 { c.extend([4, 250]); waits += 1; c.push(10); } else { c.push(10); },
+                _ => c.extend(foreign(&mut rng)),
+            }
+        }
+        c.push(if rng.chance(1, 2) { 10 } else { 2 });
         sink(c, String::new());
     }
     // a unit that keeps repeating the SAME frame every 60 ms against a 150 ms timeout must stay healthy
